@@ -244,10 +244,11 @@ def sweep(rep: Report):
             rep.add(Violation("seq:2^20-successive-of-a-time-seeded-generator-not-distinct", f"{len(seen)} distinct of {(1 << 20) + 64}", {"kind": "long20"}))
         # the node wires its start time into its end-to-end generator
         from diameter.node import Node
-        for t in (1_700_000_000.0, 1_700_000_000.0 + 0xabc, 1_700_004_095.0):
+        # (incl. start times whose low 12 bits are zero; the random source answers with a value whose own high bits are set)
+        for t in (1_700_000_000.0, 1_700_000_000.0 + 0xabc, 1_700_004_095.0, float(0x6553f000), float(0x70000000), float(0x6553ffff)):
             w.now = t
             w.rand_plan.clear()
-            w.rand_plan.append(0x54321)
+            w.rand_plan.append(0xabc54321)
             node = Node("n.example.org", "example.org")
             n += 1
             if node.end_to_end_seq.sequence >> 20 != int(t) & 0xfff:
